@@ -120,6 +120,31 @@ pub mod emap {
         uninterp spec fn decrease(&self) -> Option<nat>;
         uninterp spec fn peek(&self, i: int) -> Option<(usize, &'a mut V)>;
     }
+    impl<'a, V: Clone + 'a> Iter<'a, V> {
+        /// std's `Iterator::find` as instantiated for this iterator (inherent, so that it can carry a contract):
+        /// the first remaining element the predicate accepts; everything before it was rejected
+        #[verifier::external_body]
+        pub fn find<P: FnMut(&(usize, &'a V)) -> bool>(&mut self, pred: P) -> (r: Option<(usize, &'a V)>)
+            requires
+                forall|i: int| old(self).pos() <= i < old(self).src().len() ==> (#[trigger] old(self).src()[i]).is_some(),
+                forall|i: int| old(self).pos() <= i < old(self).src().len() ==>
+                    pred.requires((&(i as usize, &(#[trigger] old(self).src()[i]).unwrap()),)),
+            ensures
+                final(self).src() == old(self).src(),
+                match r {
+                    Some(kv) => old(self).pos() <= kv.0 < old(self).src().len()
+                        && Some(*kv.1) == old(self).src()[kv.0 as int]
+                        && final(self).pos() == kv.0 + 1
+                        && pred.ensures((&(kv.0, kv.1),), true)
+                        && forall|j: int| old(self).pos() <= j < kv.0 ==>
+                            pred.ensures((&(j as usize, &(#[trigger] old(self).src()[j]).unwrap()),), false),
+                    None => final(self).pos() >= old(self).src().len()
+                        && forall|j: int| old(self).pos() <= j < old(self).src().len() ==>
+                            pred.ensures((&(j as usize, &(#[trigger] old(self).src()[j]).unwrap()),), false),
+                }
+        { unimplemented!() }
+    }
+
     impl<'a, V: Clone + 'a> Iterator for Iter<'a, V> {
         type Item = (usize, &'a V);
         #[verifier::external_body]
